@@ -81,6 +81,7 @@ func (up *UsagePool) LoadOrNew(key any, construct Constructor) (value any, loade
 	if loaded {
 		atomic.AddInt32(&upv.refs, 1)
 		up.Unlock()
+		verifYield(up, 1, upv)
 		upv.RLock()
 		value = upv.value
 		err = upv.err
@@ -95,6 +96,7 @@ func (up *UsagePool) LoadOrNew(key any, construct Constructor) (value any, loade
 			upv.value = value
 		} else {
 			upv.err = err
+			verifYield(up, 2, upv)
 			up.Lock()
 			// this *should* be safe, I think, because we have a
 			// write lock on upv, but we might also need to ensure
@@ -120,6 +122,7 @@ func (up *UsagePool) LoadOrStore(key, val any) (value any, loaded bool) {
 	if loaded {
 		atomic.AddInt32(&upv.refs, 1)
 		up.Unlock()
+		verifYield(up, 3, upv)
 		upv.Lock()
 		if upv.err == nil {
 			value = upv.value
@@ -148,6 +151,7 @@ func (up *UsagePool) Range(f func(key, value any) bool) {
 	up.RLock()
 	defer up.RUnlock()
 	for key, upv := range up.pool {
+		verifYield(up, 6, upv)
 		upv.RLock()
 		if upv.err != nil {
 			upv.RUnlock()
@@ -177,6 +181,7 @@ func (up *UsagePool) Delete(key any) (deleted bool, err error) {
 	if refs == 0 {
 		delete(up.pool, key)
 		up.Unlock()
+		verifYield(up, 4, upv)
 		upv.RLock()
 		val := upv.value
 		upv.RUnlock()
@@ -203,6 +208,7 @@ func (up *UsagePool) References(key any) (int, bool) {
 	if loaded {
 		// I wonder if it'd be safer to read this value during
 		// our lock on the UsagePool... guess we'll see...
+		verifYield(up, 5, upv)
 		refs := atomic.LoadInt32(&upv.refs)
 		return int(refs), true
 	}
